@@ -152,3 +152,9 @@ Definition render (root : bytes) (e : aev) : ev :=
   | AModified k p => Modified k (abspath root p)
   | AMoved k s d syn => Moved k (abspath root s) (abspath root d) syn
   end.
+
+(* well-formed tree: paths unique and non-empty, every entry's parent is the root or a directory
+   of the tree (so nothing lies below a file) *)
+Definition wf_fs (f : fs) : Prop :=
+  NoDup (map e_path f) /\
+  forall e, In e f -> e_path e <> [] /\ (parent (e_path e) = [] \/ fs_isdir f (parent (e_path e)) = true).
